@@ -168,12 +168,15 @@ class Repo:
         from . import anchors as _anchors
         self.renamed = _anchors.detect([m.tree for m in mods])
         _anchors.apply([m.tree for m in mods] + [m.orig_tree for m in mods], self.renamed)
+        self.lifted = _anchors.lift_functions([m.tree for m in mods])
+        _anchors.lift_functions([m.orig_tree for m in mods])
         # package-wide pre-passes (sa/prepass.py): module constants, named tuples
         from . import prepass as _prepass
         self.prepass = {
             'constants': _prepass.fold_module_constants({m.name: m.tree for m in mods}),
             'named_tuples': _prepass.erase_named_tuples([m.tree for m in mods]),
         }
+        self.prepass['dict_ctors'] = _prepass.erase_dict_ctors([m.tree for m in mods])
         self.prepass['class_constants'] = _prepass.fold_class_constants([m.tree for m in mods])
         from . import idioms as _idioms
         self.prepass['library_idioms'] = _idioms.rewrite_package([m.tree for m in mods])
@@ -187,9 +190,19 @@ class Repo:
                 for n in m.tree.body:
                     if isinstance(n, ast.ClassDef):
                         allc.setdefault(n.name, n)
+            # module-level functions the recorded tree does not have (extracted helpers), by unique name
+            allf, dup = {}, set()
+            for m in mods:
+                for n in m.tree.body:
+                    if isinstance(n, ast.FunctionDef) and n.name not in _anchors.RECORDED_FUNCTIONS:
+                        if n.name in allf:
+                            dup.add(n.name)
+                        allf[n.name] = n
+            for k in dup:
+                allf.pop(k)
             for m in mods:
                 try:
-                    cnt = normalize_module(m.tree, Canon.NO_INLINE, allc, _anchors.recorded_methods())
+                    cnt = normalize_module(m.tree, Canon.NO_INLINE, allc, _anchors.recorded_methods(), allf)
                 except RecursionError:
                     cnt = {}
                 for k, v in cnt.items():
@@ -315,8 +328,18 @@ class Repo:
                             q = c.methods[n.func.attr].qual
                             if not (isinstance(n.func.value, ast.Name) and n.func.value.id == 'self'):
                                 remaining[q] = remaining.get(q, 0) + 1
+        named = {}
+        for f in self.functions.values():
+            for n in _walk_no_nested(f.node):
+                if isinstance(n, ast.Call):
+                    nm = n.func.id if isinstance(n.func, ast.Name) else (
+                        n.func.attr if isinstance(n.func, ast.Attribute) else None)
+                    if nm:
+                        named[nm] = named.get(nm, 0) + 1
         for f in self.functions.values():
             f.inlined = bool(self.normalised.get(f.qual)) and not remaining.get(f.qual)
+            if f.cls is None and self.normalised.get(':' + f.name) and not named.get(f.name):
+                f.inlined = True          # a module-level helper inlined at every call
 
     def cls(self, name):
         c = self.classes.get(name)
